@@ -135,6 +135,17 @@ def handle (st : St) (line : String) : St × Option String :=
     -- **T, and *T against a pointer to an independent copy, on a value whose floats are all NaN (not a value of the
     -- model: C12.deq_forms_agree says the answers agree for every value it can name; here the claim "the same answer
     -- in every form" is observed directly). A test-level observation: no model function is evaluated.
+    -- U8 <name> <expr> <source form> | stored|lost|err|panic|other — Set of element 0 of a `[]uint8`-spelled field
+    -- (a slice of scalars for the generator, `[]byte` for reflection: the one shape the value model cannot carry)
+    -- with the number 7 in every source form; judged by the harness. C03: the value is convertible, so reading the
+    -- path must yield it. A test-level observation: no model function is evaluated.
+    | some "U8" =>
+      (st, some (match out with
+        | ["stored"] => "agree"
+        | ["lost"] => "dev-viol a convertible value was not stored in the addressed element"
+        | ["panic"] => "dev-viol panic"
+        | ["err"] => "dev-viol Set refused a convertible value"
+        | _ => "dev-viol the slice is neither updated at the addressed element only nor unchanged"))
     | some "FA" =>
       (st, some (match out with
         | a :: rest =>
